@@ -24,7 +24,7 @@ import (
 )
 
 func init() {
-	factGens = append(factGens, genAtomicFacts, genAuthFacts)
+	factGens = append(factGens, genAtomicFacts, genCacheCtxFacts, genAuthFacts)
 }
 
 func xbNodeText(fset *token.FileSet, n ast.Node) string {
@@ -258,6 +258,73 @@ func genAtomicFacts(repo string, emit func(name, leanDef string, err error)) {
 		}
 		emit(cs[0], fmt.Sprintf("/-- %s: %s — callee names in source order -/\ndef %s : List String := %s", cs[1], cs[2], cs[0], leanStrList(xbCallSeq(fd))), nil)
 	}
+}
+
+// cacheCtxCalls: for a function that opens a cache context (`cc, writeFunc := ctx.CacheContext()`),
+// the callees that receive the cache context as first argument or are invoked on it, in source order.
+func cacheCtxCalls(fd *ast.FuncDecl) (ccVar string, calls []string) {
+	ast.Inspect(fd.Body, func(n ast.Node) bool {
+		as, ok := n.(*ast.AssignStmt)
+		if !ok || ccVar != "" || len(as.Lhs) != 2 || len(as.Rhs) != 1 {
+			return true
+		}
+		if c, ok := as.Rhs[0].(*ast.CallExpr); ok && xbCalleeName(c) == "CacheContext" {
+			ccVar = exprText(as.Lhs[0])
+		}
+		return true
+	})
+	if ccVar == "" {
+		return
+	}
+	type pc struct {
+		pos  token.Pos
+		name string
+	}
+	var cs []pc
+	ast.Inspect(fd.Body, func(n ast.Node) bool {
+		c, ok := n.(*ast.CallExpr)
+		if !ok {
+			return true
+		}
+		onCC := len(c.Args) > 0 && exprText(c.Args[0]) == ccVar
+		if sel, ok := c.Fun.(*ast.SelectorExpr); ok && exprText(sel.X) == ccVar {
+			onCC = true
+		}
+		if onCC {
+			cs = append(cs, pc{c.Lparen, xbCalleeName(c)})
+		}
+		return true
+	})
+	sort.SliceStable(cs, func(i, j int) bool { return cs[i].pos < cs[j].pos })
+	for _, c := range cs {
+		calls = append(calls, c.name)
+	}
+	return
+}
+
+func genCacheCtxFacts(repo string, emit func(name, leanDef string, err error)) {
+	var rows []string
+	var ferr error
+	for _, m := range [][3]string{
+		{"x/operator/keeper/slash.go", "Slash", "Keeper"},
+		{"precompiles/assets/tx.go", "DepositOrWithdraw", "Precompile"},
+		{"precompiles/assets/tx.go", "RegisterToken", "Precompile"},
+		{"x/oracle/keeper/native_token.go", "UpdateNSTByBalanceChange", "Keeper"},
+	} {
+		_, f, err := xbParseGo(repo, m[0])
+		if err != nil {
+			ferr = err
+			continue
+		}
+		fd := xbFindFunc(f, m[1], m[2])
+		if fd == nil {
+			ferr = fmt.Errorf("%s: %s not found", m[0], m[1])
+			continue
+		}
+		_, calls := cacheCtxCalls(fd)
+		rows = append(rows, fmt.Sprintf("(%q, %s)", m[1], leanStrList(calls)))
+	}
+	emit("cacheCtxCalls", "/-- callees that run on the function's cache context (first argument or receiver is the variable bound by `… := ctx.CacheContext()`), in source order; [] = no cache context -/\ndef cacheCtxCalls : List (String × List String) := ["+strings.Join(rows, ", ")+"]", ferr)
 }
 
 func genAuthFacts(repo string, emit func(name, leanDef string, err error)) {
